@@ -38,6 +38,11 @@
 (*                       (Temporary), and then garbage-collects the        *)
 (*                       changes alone | the attribute always exists and   *)
 (*                       a demo storage over a base never collects garbage *)
+(*   BlobStoreSkipsBaseCheck  storeBlob hands the record straight to the   *)
+(*                       changes storage, which checks the serial against  *)
+(*                       its own revisions only: for an object that so far *)
+(*                       lives in the layers below any serial is accepted  *)
+(*                       | storeBlob makes the check that store makes      *)
 (* `obs` (the answer of every query, transcription) and `dev` (where obs   *)
 (* differs from the meaning ObsTable(base \o changes), and why) are        *)
 (* functions of the other variables; they are printed with every state.    *)
@@ -55,7 +60,8 @@ CONSTANTS BaseKind, ChangesKind,   \* "file" | "mapping"
           Cls,         \* class kind per oid: "plain" | "merge"
           Temporary,   \* the demo storages create their own changes storage (changes=None: a MappingStorage)
           PrintObs,    \* compute obs / dev with every state (behaviours for replay)
-          TidFromChangesOnly, UndoUncreates, OidProbeByLoad, PackAsCode
+          BlobOids,    \* oids written with storeBlob (blob records: class "plain", the value lives in the blob file)
+          TidFromChangesOnly, UndoUncreates, OidProbeByLoad, PackAsCode, BlobStoreSkipsBaseCheck
 
 VARIABLES layers,      \* sequence of histories
           inst,        \* per layer: [lastTs, ltid, lastPack, issued] (instance state of that storage / demo)
@@ -67,6 +73,8 @@ VARIABLES layers,      \* sequence of histories
 vars == <<layers, inst, txn, clock, begun, noids, npacks, res, obs, dev>>
 
 Oids == 0..(NOid - 1)
+\* blob records carry no conflict resolution
+ASSUME BlobOids \subseteq Oids /\ \A o \in BlobOids : Cls[o] = "plain"
 MaxTid == 999999                   \* utils.maxtid
 NoTxn == [owner |-> "none"]
 OK(what) == [call |-> what, out |-> "ok"]
@@ -286,7 +294,12 @@ Store(c, o, serial, d) ==
      ELSE LET T0  == [txn EXCEPT !.stored = @ \cup {o}]              \* _stored_oids.add(oid) comes first
               cur == QLoad(layers, Top, o)                              \* load_current(self, oid)
               old == IF cur.k = "rev" THEN cur.serial ELSE serial
-          IN IF old = serial
+          IN IF o \in BlobOids /\ BlobStoreSkipsBaseCheck
+             THEN \* DemoStorage.storeBlob: changes.storeBlob(oid, oldserial, ...) = changes.store + the blob file;
+                  \* `lost`: accepted although the merged current revision is not the one the writer names
+                  LET r == PStore(TopH, ChangesKind, T0, o, serial, d, serial, FALSE)
+                  IN txn' = r.t /\ res' = [call |-> "store", out |-> r.out, lost |-> r.out # "ConflictError" /\ old # serial]
+             ELSE IF old = serial
              THEN LET r == PStore(TopH, ChangesKind, T0, o, serial, d, serial, FALSE)
                   IN txn' = r.t /\ res' = Out("store", r.out)
              ELSE \* tryToResolveConflict(oid, old, serial, data): loadSerial through the demo storage
@@ -336,7 +349,8 @@ UndoOne(H, below, S, i, j) ==
                 ELSE IF cptr = Null THEN Gone ELSE DataOfRec(H, URecAt(H, cptr))
       trivial == tipos = pos \/ cptr = pos
       loadFail == ~trivial /\ (undone = Gone \/ curD = Gone)
-      differ == ~trivial /\ ~loadFail /\ undone # curD
+      \* (FileStorage compares the pickles: the records of a blob are all alike, whatever the blob files hold)
+      differ == ~trivial /\ ~loadFail /\ undone # curD /\ o \notin BlobOids
       preD == IF pre = Null THEN Gone ELSE DataOfRec(H, URecAt(H, pre))
       oldD == DataAt(H, i, o)
   IN IF loadFail THEN [k |-> "fail"]
@@ -566,7 +580,7 @@ ConflictAcrossLayers ==
     \A i \in 1..Len(M) : \A j \in 1..Len(M[i].recs) :
       LET r == M[i].recs[j] IN
         \* (a pack may have removed the revision the writer started from)
-        (r.op = "data" /\ r.base >= 0 /\ \A n \in 1..Len(inst) : r.base > inst[n].lastPack) =>
+        (r.op = "data" /\ r.base >= 0 /\ \A n \in 1..Len(inst) : (inst[n].lastPack = 0 \/ r.base > inst[n].lastPack)) =>
            LET p == PrevPos(M, i, r.oid) IN
            \* an object that a lower layer holds as "does not exist" (its creation was undone there) is a new
            \* object for the demo storage: whatever serial the writer names, nothing is lost
@@ -582,6 +596,8 @@ UndoInChangesOnly ==
   [][(res'.call = "undo" /\ res'.out = "ok") => (Len(txn'.undone) > 0 /\ txn'.undone[Len(txn'.undone)] \in TidsOf(TopH))]_vars
 
 \* new_oid never returns an id issued before by this demo storage or present in any layer
+\* storeBlob detects conflicts as store does (implied by ConflictAcrossLayers for committed revisions)
+BlobStoreChecked == [][(res'.call = "store" /\ "lost" \in DOMAIN res') => ~res'.lost]_vars
 OidFreshBothLayers == [][(res'.call = "new_oid" /\ noids' = noids + 1) => ~res'.collides]_vars
 \* an id is forgotten from the issued set only once it is stored in the changes
 IssuedOrStored ==
